@@ -11,7 +11,6 @@
 package main
 
 import (
-	"bytes"
 	"encoding/binary"
 	"errors"
 	"fmt"
@@ -318,14 +317,10 @@ func runRace(c *vh.Ctx, cs Case) {
 	oracle(c, cs, w, calls, res)
 	c.Case("race", fmt.Sprintf("%+v", cs), true, cs, modelCase(cs, w, calls, res))
 	if !crypto.VerifCosiNonceUsed(w.nonce) {
-		for _, ch := range w.chal {
-			if ch != nil {
-				for _, cl := range calls {
-					if w.chal[cl.ctx] != nil {
-						c.Fail("not-marked-used", "a response was handed out but the nonce is not marked used", cs)
-						return
-					}
-				}
+		for _, rr := range res {
+			if rr.err == nil && !rr.pan {
+				c.Fail("not-marked-used", "a response was handed out but the nonce is not marked used", cs)
+				break
 			}
 		}
 	}
@@ -421,24 +416,21 @@ func runEvict(c *vh.Ctx, cs Case) {
 	filler := crypto.VerifNewCosiNonce(&fk)
 	_, used0, _ := v.Sizes()
 	limit := 0
-	for i := 1; i < 1<<20; i++ {
-		if v.Retrieve(snapHash(i+7), cm) != nil {
-			c.Fail("commitment-two-snapshots", "a retained commitment was handed out for another snapshot hash", cs)
-			break
-		}
-		if i%4096 == 1 || limit == 0 {
-			if got := v.Retrieve(s0, cm); got != n {
-				if _, still := v.Bound(s0); still {
-					c.Fail("retained-not-returned", "a retained binding did not return its nonce", cs)
-				}
-				limit = i
-				break
-			}
-		}
+	for i := 1; i <= 1<<19; i++ {
 		v.Retain(snapHash(1<<30+i), filler)
 		if _, still := v.Bound(s0); !still {
 			limit = i
 			break
+		}
+		if i%8192 == 0 || i < 4 { // while retained: returned for its snapshot, refused for any other
+			if v.Retrieve(s0, cm) != n {
+				c.Fail("retained-not-returned", "a retained binding did not return its nonce", cs)
+				break
+			}
+			if v.Retrieve(snapHash(3), cm) != nil {
+				c.Fail("commitment-two-snapshots", "a retained commitment was handed out for another snapshot hash", cs)
+				break
+			}
 		}
 	}
 	_, used1, order1 := v.Sizes()
@@ -452,7 +444,6 @@ func runEvict(c *vh.Ctx, cs Case) {
 		c.Fail("retention-sizes", fmt.Sprintf("UsedRandoms %d / order %d out of step", used1, order1), cs)
 	}
 	c.Case("evict", fmt.Sprintf("%+v", cs), limit > 0, cs, "")
-	_ = bytes.Equal
 }
 
 func run(c *vh.Ctx, cs Case) {
